@@ -21,14 +21,16 @@ class _Mod:
         self.imports = {}
 
 
-def template_func(source, name=None):
+def template_func(source, name=None, closure=False):
     tree = ast.parse(source)
     fns = [n for n in tree.body if isinstance(n, ast.FunctionDef)]
     if name:
         fns = [f for f in fns if f.name == name]
     if len(fns) != 1:
         raise AnalysisError('template must define exactly one function')
-    return FuncInfo(_Mod(), None, fns[0].name, fns[0], '<template>:' + fns[0].name)
+    fi = FuncInfo(_Mod(), None, fns[0].name, fns[0], '<template>:' + fns[0].name)
+    fi.closure = closure
+    return fi
 
 
 OPLUS = {'np.logaddexp': 'logaddexp', 'numpy.logaddexp': 'logaddexp', 'np.minimum': 'minimum', 'numpy.minimum': 'minimum'}
@@ -319,6 +321,10 @@ def local_signatures(fi, params, surviving=None, keep=()):
     return sigs
 
 
+def _is_closure_template(fi):
+    return bool(getattr(fi, 'closure', False))
+
+
 def effects(fi, keep=(), use_semiring=True):
     """Canonical effect list of a function."""
     effs = _collect(fi, keep=keep)
@@ -331,6 +337,31 @@ def effects(fi, keep=(), use_semiring=True):
         if e.kind.startswith(('bind:', 'aug:')):
             surviving.add(e.kind.split(':', 1)[1])
     rename = local_signatures(fi, params, surviving, set(keep) | mutated_locals(fi))
+    # free variables of a closure that are locals of the enclosing function: named by order of appearance
+    import builtins
+    known_globals = set(dir(builtins)) | {'np', 'numpy', 'torch', 'math', 'cv2', 'F', 'ET', 're', 'os', 'sys', 'json', 'logger', 'logging', 'self'}
+    mod = getattr(fi, 'module', None)
+    mod_names = set()
+    if mod is not None and hasattr(mod, 'tree'):
+        for s_ in mod.tree.body:
+            if isinstance(s_, (ast.FunctionDef, ast.ClassDef)):
+                mod_names.add(s_.name)
+            elif isinstance(s_, ast.Assign):
+                mod_names |= set(target_names(s_.targets[0]))
+        mod_names |= set(mod.imports)
+    if '.' in fi.qual.split(':')[-1] or fi.qual.startswith('<template>'):
+        enclosing_is_func = fi.qual.startswith('<template>') or (fi.cls is None) or fi.qual.split(':')[-1].count('.') >= 2
+        if enclosing_is_func:
+            k = 0
+            for e in effs:
+                for x in [e.target, e.value] + [y for c in e.ctx for y in c[1:]]:
+                    if isinstance(x, ast.AST):
+                        for n in sorted((n for n in ast.walk(x) if isinstance(n, ast.Name)), key=lambda n: (getattr(n, 'lineno', 0), getattr(n, 'col_offset', 0))):
+                            if n.id not in rename and n.id not in params and n.id not in known_globals and n.id not in mod_names and not n.id.startswith('_c'):
+                                if fi.qual.startswith('<template>') and not _is_closure_template(fi):
+                                    continue
+                                rename[n.id] = 'free%d' % k
+                                k += 1
 
     def cz(x):
         if x is None:
